@@ -42,6 +42,9 @@ PICK = [
     ('C03', lambda r, d, c: r in ('C03.b', 'C03.j'), 'C17.c'),
     ('C13', lambda r, d, c: r == 'C13.i', 'C17.f'),
     ('C01', lambda r, d, c: r == 'C01.n', 'C17.e'),
+    ('C13', lambda r, d, c: r == 'C13.a' and ('small-scope' in (c or '') or 'coverage' in (c or '') or 'sentinel' in (c or '')), 'C17.f'),
+    ('C12', lambda r, d, c: r == 'C12.a' and ('NaN' in d or 'allow_nan' in d or 'every geometry column' in d or 'key' in (c or '')), 'C17.f'),
+    ('C11', lambda r, d, c: r == 'C11.h', 'C17.f'),
     ('C14', lambda r, d, c: r == 'C14.c' and 'measure kernel' in d, 'C17.f'),
     ('C13', lambda r, d, c: r == 'C13.b' and ('validity mask' in d or 'placeholder' in d or 'missing' in d), 'C17.f'),
 ]
